@@ -315,6 +315,19 @@ pub fn run(rep: &mut Report) {
     let spec = Seq { acts: seq_alphabet(), inits: vec![0, DMIN, DMAX, -1, -NPC, -2 * NPC + NPC - 1], depth };
     rep.bound("seq_alphabet", spec.acts.len() as u64);
     bfs(rep, "c01.seq", spec);
+    // order independence: * / by small and large integers, + and - on values that carry, in every order
+    {
+        let oa: [i128; 8] = [1000, 77, NPC / 2, 5 * NPC + 2_840_184_000 * 1_000_000_000, -1, NPC + 5, -NPC / 2, 11 * NPC + NPC - 1];
+        let ok: [i64; 6] = [2, 3, 5, 6, -4, 1 << 40];
+        crate::engine::order_pairs(rep, "c01.order", 3 * 8 * 6 + 16, |i, out| {
+            if i < 144 {
+                judge_scale((i / 48) as usize, oa[((i / 6) % 8) as usize], ok[(i % 6) as usize], out);
+            } else {
+                let j = i - 144;
+                judge_bin((j % 2) as usize, oa[(j / 2 % 8) as usize], oa[((j / 2 + 3) % 8) as usize], out);
+            }
+        });
+    }
 }
 
 pub fn replay(check: &str, a: &[String], out: &mut Local) -> bool {
